@@ -130,6 +130,15 @@ def gen_scenario(rng, idx):
     # a host with two interfaces (two sender transports): every broadcast leaves on both
     if rng.random() < 0.15:
         sc["ifaces"] = 2
+    # through the public asyncio wrapper (AsyncZeroconf.async_register_service / ..., closed by `async with`)
+    if rng.random() < 0.3:
+        sc["api"] = "aio"
+    # legacy server=None: set_server_if_missing makes the instance name the host name (at register, update AND unregister: a fresh
+    # copy handed to unregister has no server yet)
+    for sv in sc["svcs"]:
+        if rng.random() < 0.08 and len(sv["text"]) < 100:
+            sv["server_none"] = True
+            sv["server"] = "%s.%s" % (sv["inst"], sv["type"])
     return sc
 
 
@@ -281,7 +290,7 @@ class Tap:
 
         def send(self_, out, addr=None, port=5353, v6_flow_scope=(), transport=None):
             tag = tap.tags.get(id(out)) or tap.ctx.get(id(self_)) or ("ans",)
-            tap.ev.append(("asend", sim.now(), id(self_), tag, addr is not None))
+            tap.ev.append(("asend", sim.now(), id(self_), tag, addr is not None, id(out)))
             return o_send(self_, out, addr, port, v6_flow_scope, transport)
 
         def gen(self_, info, ttl, broadcast_addresses=True):
@@ -291,6 +300,8 @@ class Tap:
             tap.keep.append(out)
             # the fields the object has *now*: a broadcast task reads the object at each of its steps (D27)
             tap.tags[id(out)] = ("bcast", id(info), ttl, broadcast_addresses, c08_fields(info))
+            # which packet object this is: since the D27 repair one unregister call builds one goodbye packet and sends it three times
+            tap.ev.append(("gbgen", sim.now(), id(self_), id(out), id(info), ttl))
             return out
 
         def gall(self_):
@@ -401,6 +412,19 @@ def run_scenario(sc):
         a = make_host(sim, sc.get("ifaces", 1))
         za = a.zc
         await za.async_wait_for_start()
+        # which public API the scenario goes through: `Zeroconf`'s async methods, or the `AsyncZeroconf` wrapper (same method names and
+        # arguments; closed by leaving its `async with` block)
+        api = za
+        if sc.get("api") == "aio":
+            from zeroconf.asyncio import AsyncZeroconf
+
+            api = AsyncZeroconf(zc=za)
+
+        async def close_instance():
+            if sc.get("api") == "aio":
+                await api.__aexit__(None, None, None)
+            else:
+                await vsim.close_host(a)
         infos = []
         first = []  # the handle each service was first registered with (stale once an update went through another object)
 
@@ -409,7 +433,7 @@ def run_scenario(sc):
 
         def build(i):
             s = cur[i]
-            return c09.make_info({"type": s["type"], "inst": s["inst"], "port": s["port"], "text": s["text"], "server": s["server"],
+            return c09.make_info({"type": s["type"], "inst": s["inst"], "port": s["port"], "text": s["text"], "server": None if s.get("server_none") else s["server"],
                                   "host_ttl": s["host_ttl"], "other_ttl": s["other_ttl"], "v4": s["v4"], "v6": s["v6"],
                                   "weight": s.get("weight", 0), "priority": s.get("priority", 0)})
 
@@ -422,7 +446,7 @@ def run_scenario(sc):
                 return first[i] if (first[i] is not infos[i] and not changed[i]) else build(i)
             return infos[i]
         for s in sc["svcs"]:
-            infos.append(c09.make_info({"type": s["type"], "inst": s["inst"], "port": s["port"], "text": s["text"], "server": s["server"],
+            infos.append(c09.make_info({"type": s["type"], "inst": s["inst"], "port": s["port"], "text": s["text"], "server": None if s.get("server_none") else s["server"],
                                         "host_ttl": s["host_ttl"], "other_ttl": s["other_ttl"], "v4": s["v4"], "v6": s["v6"],
                                         "weight": s.get("weight", 0), "priority": s.get("priority", 0)}))
         first.extend(infos)
@@ -441,10 +465,10 @@ def run_scenario(sc):
                     # D6: withdraw as soon as async_register_service returns (or `gap` ms later, between the announcements)
                     ttl = ttl_for(op, infos[op["svc"]])
                     handed.add(id(infos[op["svc"]]))
-                    await za.async_register_service(infos[op["svc"]], ttl=ttl)
+                    await api.async_register_service(infos[op["svc"]], ttl=ttl)
                     if op.get("gap"):
                         await sim.sleep_ms(op["gap"])
-                    await za.async_unregister_service(infos[op["svc"]])
+                    await api.async_unregister_service(infos[op["svc"]])
                     return
                 await sim.sleep_until(T0 + op["at"])
                 if closed[0] and k != "query":
@@ -452,13 +476,13 @@ def run_scenario(sc):
                 if k == "register":
                     ttl = ttl_for(op, infos[op["svc"]])
                     handed.add(id(infos[op["svc"]]))
-                    await za.async_register_service(infos[op["svc"]], ttl=ttl)
+                    await api.async_register_service(infos[op["svc"]], ttl=ttl)
                 elif k == "reregister":
                     # the same object: unregistered, then registered again without awaiting the goodbye task
-                    await za.async_unregister_service(infos[op["svc"]])
+                    await api.async_unregister_service(infos[op["svc"]])
                     if op.get("gap"):
                         await sim.sleep_ms(op["gap"])
-                    await za.async_register_service(infos[op["svc"]], allow_name_change=op.get("allow", True))
+                    await api.async_register_service(infos[op["svc"]], allow_name_change=op.get("allow", True))
                 elif k == "query":
                     nq[0] += 1
                     data = build_query(sc, op, nq[0])
@@ -466,16 +490,17 @@ def run_scenario(sc):
                         await sim.sleep_ms(op["delay"])
                     a.inject(data, "10.0.0.9", 40000 if op["kind"] == "legacy" else 5353)
                 elif k == "unregister":
-                    await za.async_unregister_service(handle(op["svc"], op.get("via", "same")))
+                    await api.async_unregister_service(handle(op["svc"], op.get("via", "same")))
                 elif k == "update":
                     if op.get("refused"):
                         # an update the library must refuse (its records cannot be encoded): nothing of it may stay behind
                         before = dict(cur[op["svc"]])
                         cur[op["svc"]].update(op["change"])
+                        cur[op["svc"]]["server_none"] = False
                         h = build(op["svc"])
                         cur[op["svc"]] = before
                         try:
-                            await za.async_update_service(h)
+                            await api.async_update_service(h)
                             errors.append((op["op"], "refused-update-accepted"))
                         except Exception as ex:  # noqa: BLE001
                             if type(ex).__name__ != "NamePartTooLongException":
@@ -486,13 +511,13 @@ def run_scenario(sc):
                         changed[op["svc"]] = True
                     h = handle(op["svc"], op.get("via", "same"))
                     handed.add(id(h))
-                    await za.async_update_service(h)
+                    await api.async_update_service(h)
                     infos[op["svc"]] = h
                 elif k == "unregister_all":
-                    await za.async_unregister_all_services()
+                    await api.async_unregister_all_services()
                 elif k == "close":
                     closed[0] = True
-                    await vsim.close_host(a)
+                    await close_instance()
             except Exception as ex:  # noqa: BLE001
                 errors.append((op["op"], type(ex).__name__))
 
@@ -509,7 +534,7 @@ def run_scenario(sc):
         obs["ev"] = tap.ev
         if not closed[0]:
             try:
-                await vsim.close_host(a)
+                await close_instance()
             except Exception as ex:  # noqa: BLE001  (a close that raises is judged by the oracle, it must not stop the harness)
                 errors.append(("close", type(ex).__name__))
 
@@ -825,7 +850,24 @@ def oracle(sc, obs, res, case):
             # the goodbye datagrams of this object that follow (each serves one unregister call): the one that fits this call best
             # -- right content, nearest to t, t+125, t+250 -- three times
             gb = []
-            for kth in range(3):
+            # the packet this call built (D27 repair: built at the call, sent three times): its transmissions are this call's goodbyes
+            mine = None
+            for j in range(i + 1, n):
+                x = ev[j]
+                if x[0] == "gbgen" and x[4] == e[3] and x[5] == 0 and x[1] == t and ("gb", x[3]) not in used_gb:
+                    mine = x[3]
+                    used_gb.add(("gb", x[3]))
+                    break
+                if x[0] in ("unreg", "send", "asend") or x[1] != t:
+                    break
+            if mine is not None:
+                for j in range(i + 1, n):
+                    x = ev[j]
+                    if x[0] == "asend" and x[3][0] == "bcast" and len(x) > 5 and x[5] == mine:
+                        per, last = sends_of(j)
+                        used_gb.add(j)
+                        gb.append({"t": x[1], "per": per, "last": last, "j": j, "fields": x[3][4]})
+            for kth in (range(3) if mine is None else []):
                 cands = []
                 for j in range(i + 1, n):
                     x = ev[j]
